@@ -110,6 +110,20 @@ Theorem C06_own_mins_count : forall l jobmin cnt x c,
 Proof. exact own_mins_count. Qed.
 Print Assumptions C06_own_mins_count.
 
+(* minResources sums exactly minAvailable replicas: both branches of calcPGMinResources
+   (first-count rule; own minimums then fill-up), for ANY visiting order of the
+   tasks, hence for any order of equal priorities *)
+Theorem C06_calc_min_resources_exact : forall l jobmin tm,
+  Forall ptask_ok l -> 0 <= jobmin <= sum_replicas l ->
+  r_pods (calc_min_resources_sorted jobmin l tm) = jobmin.
+Proof. exact calc_min_resources_exact. Qed.
+Print Assumptions C06_calc_min_resources_exact.
+
+Theorem C06_fill_up_exact : forall l leftcnt,
+  Forall ptask_ok l -> 0 < leftcnt <= sum_spare l -> r_pods (fill_up leftcnt l) = leftcnt.
+Proof. exact fill_up_exact. Qed.
+Print Assumptions C06_fill_up_exact.
+
 Example C06_nonvacuous :
   let sp := mkSpec [mkTask 1 3 (Some 1) [] None; mkTask 2 2 None [] None] 4 None 3 [] in
   let xs := [mkExtra 100 64 1; mkExtra 250 0 2] in
@@ -126,3 +140,9 @@ Example C06_nonvacuous_pod_set :
   pass true ex_spec (pass true ex_spec ex_pods) = pass true ex_spec ex_pods /\
   pass true ex_spec (a_pods (sync_pods ex_spec ex_pods ex_pods [FCreate 1 0; FDelete 1 2])) = pass true ex_spec ex_pods.
 Proof. exact pod_set_example. Qed.
+
+Example C06_nonvacuous_minres :
+  let l := [mkPT (mkTask 1 3 (Some 1) [] None) 100 64 10; mkPT (mkTask 2 2 None [] None) 250 0 20] in
+  Forall ptask_ok l /\ 0 <= 4 <= sum_replicas l /\
+  calc_min_resources_sorted 4 l (total_min l) = mkR 4 (3 * 100 + 250) (3 * 64).
+Proof. exact minres_example. Qed.
